@@ -62,3 +62,27 @@ Theorem C11_generalised_pattern_still_matches :
   exists m', In m' (find_matches pattern' student).
 Proof. exact generalised_pattern_still_matches. Qed.
 Print Assumptions C11_generalised_pattern_still_matches.
+
+(* history: on a report that has searched other texts before (texts that parse, texts that do not, the same text
+   again, the submission itself), a search sees exactly the parse of the text it is asked about - as on a fresh
+   report (model of reparse_if_needed: model/C11_Cache.v) *)
+From Pedal Require Import model.C11_Cache proof.C11_Cache_Lemmas.
+
+Theorem C11_search_sees_the_text_it_is_asked_about :
+  forall (code tree : Type) (code_eqb : code -> code -> bool),
+  (forall a b, code_eqb a b = true <-> a = b) ->
+  forall (parse : code -> option tree) (empty : tree) history arg st,
+  Inv code tree code_eqb parse st ->
+  seen code tree (reparse code tree code_eqb parse empty arg (run code tree code_eqb parse empty history st)) =
+  parse (code_of code tree arg st).
+Proof. intros. now apply seen_independent_of_history. Qed.
+Print Assumptions C11_search_sees_the_text_it_is_asked_about.
+
+Theorem C11_search_same_as_on_a_fresh_report :
+  forall (code tree : Type) (code_eqb : code -> code -> bool),
+  (forall a b, code_eqb a b = true <-> a = b) ->
+  forall (parse : code -> option tree) (empty : tree) history arg main,
+  seen code tree (reparse code tree code_eqb parse empty arg (run code tree code_eqb parse empty history (fresh code tree main))) =
+  seen code tree (reparse code tree code_eqb parse empty arg (fresh code tree main)).
+Proof. intros. now apply same_as_on_a_fresh_report. Qed.
+Print Assumptions C11_search_same_as_on_a_fresh_report.
